@@ -38,7 +38,7 @@ CLASSES = [
     "late_opt_dt", "late_opt_terminal_psi", "late_opt_multiplier_high", "late_opt_drag_zero", "late_opt_sparse_unknown",
     "opt_dt_fixed_step", "terminal_moved_off_boundary_after_solve", "single_terminal_with_current", "single_terminal_with_callable_current",
     "terminal_tiny_on_vertex", "seed_device_without_terminals", "seed_device_first_terminal_only", "seed_device_fewer_holes",
-    "polygon_self_intersecting", "polygon_two_points", "polygon_bad_shape", "film_unnamed", "hole_unnamed", "hole_duplicate_names",
+    "polygon_self_intersecting", "polygon_invalid_any_input_form", "polygon_scaled_to_nothing", "polygon_two_points", "polygon_bad_shape", "film_unnamed", "hole_unnamed", "hole_duplicate_names",
     "terminal_duplicate_names", "terminal_unnamed", "probe_outside_film", "probe_in_hole", "probe_bad_shape",
 ]
 OBSERVATION_CLASSES = ["unbalanced_callable_narrow_window", "unknown_terminal_zero_current"]
@@ -57,6 +57,8 @@ def gen_cases(tier, seed):
                 mags = [1e-2, 1e-4, 1e-6]
             if cls == "terminal_tiny_on_vertex":
                 mags = [0.1, 1e-2, 1e-6]
+            if cls == "polygon_invalid_any_input_form":
+                mags = [0.5, 1e-2, 1e-6]  # how far a vertex is pushed through the opposite side
             if cls in ("opt_dt_fixed_step", "terminal_moved_off_boundary_after_solve"):
                 mags = [1.0, 1e-2, 1e-6]
             if cls.startswith("epsilon"):
@@ -138,6 +140,35 @@ def run_case(spec):
                 stage = "polygon"
                 submitted = True
                 tdgl.Polygon("p", points=np.array([[0, 0], [2, 2], [2, 0], [0, 2]], dtype=float) * float(rng.uniform(0.5, 3)))
+            elif cls == "polygon_invalid_any_input_form":
+                # the same invalid outlines in every form the constructor accepts: array, list, shapely LineString / LinearRing / Polygon
+                import shapely.geometry as sg
+
+                stage = "polygon"
+                submitted = True
+                sc_ = float(rng.uniform(0.5, 3))
+                outlines = {
+                    "bow_tie": np.array([[0, 0], [2, 2], [2, 0], [0, 2]], dtype=float) * sc_,
+                    "zero_area": np.array([[0, 0], [1, 1], [2, 2], [1, 1]], dtype=float) * sc_,
+                    "vertex_through_opposite_side": np.array([[0, 0], [2, 0], [2, 1], [1, -float(mag)], [0, 1]], dtype=float) * sc_,
+                }
+                forms = {"array": lambda a: a, "list": lambda a: a.tolist(), "LineString": sg.LineString, "LinearRing": sg.LinearRing, "shapely_Polygon": sg.Polygon}
+                accepted = []
+                for oname, arr in outlines.items():
+                    for fname, mk in forms.items():
+                        C["invalid_outline_forms_tried"] = C.get("invalid_outline_forms_tried", 0) + 1
+                        try:
+                            tdgl.Polygon("p", points=mk(arr))
+                            accepted.append(f"{oname} as {fname}")
+                        except (ValueError, TypeError):
+                            pass
+                if accepted:
+                    V.append({"kind": "ill_posed_problem_accepted", "mechanism": "accepted_polygon_invalid_any_input_form", "detail": {"accepted": accepted, "depth": mag}})
+                raise ValueError("(harness) every invalid outline was tried")
+            elif cls == "polygon_scaled_to_nothing":
+                stage = "polygon"; submitted = True
+                good = tdgl.Polygon("p", points=tdgl.geometry.box(2.0, 1.0))
+                good.scale(xfact=0.0, yfact=1.0)
             elif cls == "polygon_two_points":
                 stage = "polygon"; submitted = True
                 tdgl.Polygon("p", points=np.array([[0.0, 0.0], [1.0, 1.0]]))
